@@ -252,7 +252,9 @@ theorem eval_ok_exact (cap : Nat) (p : Path) (g : Graph) :
     simp only [Path.eval] at h
     split at h
     · cases h
-    · split at h <;> cases h
+    · split at h
+      · cases h
+      · simp only [evalPure]; exact ih _ _ _ _ h
   | inv q ih =>
     intro inverse r f vs h
     simp only [Path.eval] at h
